@@ -344,11 +344,31 @@ func runCheat(cz *concretiser, cr *credential, c aCase, rng *mrand.Rand, res *hx
 	}
 	_ = ch
 
+	// what the proof reports as disclosed, as received: the verifier's application reads it AFTER verification
+	reported := map[int]*gobig.Int{}
+	nBefore := len(p.ADisclosed)
+	for i, v := range p.ADisclosed {
+		if v != nil {
+			reported[i] = new(gobig.Int).Set(v.Go())
+		}
+	}
 	var ok1, ok2 bool
 	panicked, msg := hx.Try(func() {
 		ok1 = p.Verify(pk, big.Convert(ctx), big.Convert(nonce), false)
 		ok2 = gabi.ProofList{p}.Verify([]*gabikeys.PublicKey{pk}, big.Convert(ctx), big.Convert(nonce), false, nil)
 	})
+	if !panicked {
+		for i, v := range reported {
+			if now, ok := p.ADisclosed[i]; !ok || now == nil || now.Go().Cmp(v) != 0 {
+				res.Violation("verification-alters-reported-values", fmt.Sprintf("after verification (accepted: %v) the proof reports another value for disclosed index %d than the one it was received with (%d bits before, %v after)", ok1 || ok2, i, v.BitLen(), now), hx.M{"case": c})
+				return
+			}
+		}
+		if len(p.ADisclosed) != nBefore {
+			res.Violation("verification-alters-reported-values", "verification changed the set of disclosed indices of the proof object", hx.M{"case": c})
+			return
+		}
+	}
 	key := ""
 	if c.Ndev > 0 {
 		b, _ := json.Marshal(c)
